@@ -42,6 +42,7 @@ RULE = ("seeded sampling over group {eig, eigdeg, svd, svddeg} x method x M x op
         "the reference gradient (or finite-difference derivative) of every compared leaf is non-zero, the backward path promised by "
         "the method was observed by the spies (implicit: >=1 shifted backward solve from symeig_torchfcn.backward; dense: "
         "degen_symeig.backward ran) and, for degenerate cases on the implicit path, the backward built a degeneracy map")
+RULE += ('; group extra (vf/c06_extra.py): matrix-free A (3 tensors) and M (2 tensors) with requires-grad masks, one pair of operator objects re-assigned between two decompositions with one backward, one of the operators without tensor parameters')
 MIN_NONTRIVIAL = {"quick": 2500, "thorough": 25000}
 ASSUMPTIONS = [
     "generalised eigenvalues are prescribed (A = L Q diag(e) Q^H L^H, M = L L^H): neighbouring distinct values differ by >= gap in "
